@@ -168,6 +168,19 @@ class Env:
             return SInt(v, lo, hi)
         return SInt(int(self.values.get(name, lo)), lo, hi)
 
+    def string(self, name, maxlen):
+        """bounded symbolic printable-ASCII string (sym) | the model's Python str (conc)"""
+        from .strings import SymStr
+        if self.sym:
+            st = SymStr.fresh(name, maxlen)
+            for c in st.chars:
+                self.decl[str(c)] = c
+            self.decl[str(st.n)] = st.n
+            self.assumptions.extend(st.constraints())
+            return st
+        n = int(self.values.get(f"{name}_len", 0))
+        return "".join(chr(int(self.values.get(f"{name}_c{i}", 97))) for i in range(n))
+
     def double(self, name):
         if self.sym:
             v = z3.FP(name, z3.Float64())
